@@ -128,7 +128,7 @@ func pkgDirOf(w *World, fn *ssa.Function) (dir, pkgName string, ok bool) {
 	return filepath.Dir(p.GoFiles[0]), p.Types.Name(), true
 }
 
-func runOverlayTest(w *World, dir, testSrc, runName string) (string, string) {
+func runOverlayTest(w *World, dir, testSrc, runName string, extraEnv ...string) (string, string) {
 	tmp, err := os.MkdirTemp("", "govc-replay-")
 	if err != nil {
 		return "", err.Error()
@@ -144,7 +144,7 @@ func runOverlayTest(w *World, dir, testSrc, runName string) (string, string) {
 	cmdline := fmt.Sprintf("cd %s && GOFLAGS=-mod=mod GOPROXY=off go test -overlay <overlay mapping %s/zz_verif_replay_test.go> -vet=off -count=1 -timeout 60s -run %s ./%s", w.RepoDir, rel, runName, rel)
 	cmd := exec.Command("go", "test", "-overlay", ovf, "-vet=off", "-count=1", "-timeout", "60s", "-run", runName, "-v", "./"+rel)
 	cmd.Dir = w.RepoDir
-	cmd.Env = append(os.Environ(), "GOFLAGS=-mod=mod", "GOPROXY=off")
+	cmd.Env = append(append(os.Environ(), "GOFLAGS=-mod=mod", "GOPROXY=off"), extraEnv...)
 	done := make(chan struct{})
 	var out []byte
 	go func() { out, _ = cmd.CombinedOutput(); close(done) }()
